@@ -2,7 +2,7 @@
 from .. import relcheck
 from .common import generic_replay
 
-FAMS = ["Noh", "Noh2", "Sedov", "RiemannIG", "Cog1", "Cog8", "EHEP", "Mader", "EPpiston", "Kenamond1", "Kenamond2",
+FAMS = ["Noh", "Noh2", "Sedov", "RiemannIG", "Cog1", "Cog2", "Cog4", "Cog5", "Cog6", "Cog8", "Cog9", "Cog11", "Cog12", "Cog18", "Cog19", "Cog20", "Cog21", "EHEP", "Mader", "EPpiston", "Kenamond1", "Kenamond2",
         "Kenamond3", "DSDcyl", "Blake", "Rod1D", "Hutchens1", "Guderley", "RiemannGen"]
 
 
